@@ -398,6 +398,19 @@ func (e CallErrVal) Error() string {
 	return fmt.Sprintf("exec %d: function %d (key %d) failed [value]", e.Exec, e.Fn, e.Key)
 }
 
+// CtxLikeErr unwraps to context.DeadlineExceeded although the directive's
+// context is live.
+type CtxLikeErr struct {
+	Exec uint64
+	Fn   int
+	Key  uint64
+}
+
+func (e *CtxLikeErr) Error() string {
+	return fmt.Sprintf("exec %d: function %d (key %d): backend call: %v", e.Exec, e.Fn, e.Key, context.DeadlineExceeded)
+}
+func (e *CtxLikeErr) Unwrap() error { return context.DeadlineExceeded }
+
 // ErrValue builds the error a failing call returns: unique per (exec, fn, key).
 func ErrValue(exec uint64, fn int, key uint64, kind int) error {
 	switch kind {
@@ -407,6 +420,11 @@ func ErrValue(exec uint64, fn int, key uint64, kind int) error {
 		return FieldErrors{fmt.Sprintf("exec %d", exec), fmt.Sprintf("fn %d", fn), fmt.Sprintf("key %d", key), "returned"}
 	case 3:
 		return fmt.Errorf("function %d of exec %d failed: %w", fn, exec, &CallErr{Exec: exec, Fn: fn, Key: key})
+	case 4:
+		// what a function returns that bounds its own work with a timeout
+		return &CtxLikeErr{Exec: exec, Fn: fn, Key: key}
+	case 5:
+		return fmt.Errorf("exec %d: function %d (key %d): lookup: %w", exec, fn, key, context.Canceled)
 	}
 	return &CallErr{Exec: exec, Fn: fn, Key: key}
 }
